@@ -525,7 +525,7 @@ pub struct GReq {
     pub bare_empty: bool,
 }
 
-pub const REQ_METHODS: &[&str] = &["GET", "GET", "GET", "POST", "PUT", "DELETE", "PATCH", "HEAD", "OPTIONS"];
+pub const REQ_METHODS: &[&str] = &["GET", "GET", "GET", "POST", "PUT", "DELETE", "PATCH", "HEAD", "OPTIONS", "GET", "GET", "POST", "PUT", "GET", "POST", "PUT", "DELETE", "get", "Patch", "m-search"];
 pub const REQ_HNAMES: &[&str] = &["metadata", "x-ms-version", "content-type", "accept", "user-agent", "x-a", "x-ab", "x-ms-client-request-id", "if-match", "x-zz"];
 
 pub fn req_header_value() -> impl Strategy<Value = String> {
